@@ -8,8 +8,85 @@ TRANSLATORS = []
 COQ_FILES = ["Props/C11.v"]
 
 
+def dynamic_anchor_probe(ctx):
+    """Dynamic addresses: every view an agent receives - on joining, after every action, after every reset - is well formed and
+    anchored in the CURRENT (re-labelled) world: controlled hosts are known, every host exists, services are services of that
+    node, data sits on controlled hosts and exists there (or was exfiltrated).  An Attacker with a random start host and a
+    Defender with 'all_local' play three episodes."""
+    nsgenv, WL, WR = WC._imports()
+    from AIDojoCoordinator.game_components import Action, ActionType, IP
+    th = ctx.tier == "thorough"
+    stats = {"views_checked": 0, "worlds": 0}
+    for scenario in (["scenario1_small", "three_nets", "scenario1"] if th else ["scenario1_small", "three_nets"]):
+        for seed in ([42, 7] if th else [42]):
+            cfg = nsgenv.base_config(scenario, use_dynamic_addresses=True)
+            try:
+                drv = WR.start_world(cfg, seed=seed)
+            except Exception as e:
+                ctx.stage_errors.append((f"dynamic anchor probe {scenario}", f"{type(e).__name__}: {e}"))
+                continue
+            stats["worlds"] += 1
+            g = drv.g
+            replay = {"kind": "dynamic_anchor_probe", "scenario": scenario, "seed": seed}
+            empty = {"known_networks": set(), "known_hosts": set(), "known_data": {}, "known_services": {}}
+            roles = {("10.1.11.1", 1): ("Attacker", dict(empty, controlled_hosts=["random"])),
+                     ("10.1.11.2", 2): ("Defender", dict(empty, controlled_hosts=["all_local"]))}
+            exfiltrated = set()
+
+            def anchored(gs, who, when):
+                stats["views_checked"] += 1
+                world_hosts = set(g._ip_to_hostname)
+                bad = []
+                if not set(gs.controlled_hosts) <= set(gs.known_hosts):
+                    bad.append("controlled hosts that are not known hosts")
+                ghost = sorted(str(h) for h in set(gs.known_hosts) | set(gs.controlled_hosts) if h not in world_hosts)
+                if ghost:
+                    bad.append(f"hosts that do not exist in the (re-labelled) network: {ghost[:4]}")
+                for h, ss in gs.known_services.items():
+                    if h not in gs.known_hosts:
+                        bad.append(f"services for the unknown host {h}")
+                    elif h in world_hosts and not set(ss) <= set(g._services.get(g._ip_to_hostname[h], [])):
+                        bad.append(f"services the node {h} does not run")
+                for h, ds in gs.known_data.items():
+                    if h not in gs.controlled_hosts:
+                        bad.append(f"data on the uncontrolled host {h}")
+                    elif h in world_hosts and not set(ds) <= set(g._data.get(g._ip_to_hostname[h], set())):
+                        bad.append(f"data that is not on {h}")
+                for b in bad:
+                    ctx.violations.append({"key": f"view not anchored under dynamic addresses ({b.split(':')[0][:50]})",
+                                           "what": f"{scenario}, {who}, {when}: the view has {b}", "replay": replay})
+                return not bad
+            try:
+                views = {}
+                for addr, (role, sp) in roles.items():
+                    views[addr] = WL.run_coro(g.register_agent(addr, role, sp))
+                    anchored(views[addr], role, "join")
+                for episode in range(3):
+                    for addr, (role, sp) in roles.items():
+                        gs = views[addr]
+                        src = sorted(gs.controlled_hosts, key=str)[0]
+                        acts = [Action(ActionType.ScanNetwork, {"source_host": src, "target_network": n}) for n in sorted(gs.known_networks, key=str)[:3]]
+                        acts += [Action(ActionType.FindServices, {"source_host": src, "target_host": h}) for h in sorted(gs.known_hosts, key=str)[:3]]
+                        acts += [Action(ActionType.FindData, {"source_host": src, "target_host": src})]
+                        for act in acts:
+                            gs = WL.run_coro(g.step(addr, gs, act))
+                            anchored(gs, role, f"episode {episode + 1}, {act.type.name}")
+                        views[addr] = gs
+                    WL.run_coro(g.reset())
+                    for addr, (role, sp) in roles.items():
+                        views[addr] = WL.run_coro(g.reset_agent(addr, role, sp))
+                        anchored(views[addr], role, f"reset after episode {episode + 1}")
+            except Exception as e:
+                import traceback
+                ctx.stage_errors.append((f"dynamic anchor probe {scenario}", f"{type(e).__name__}: {e}\n{traceback.format_exc()[-500:]}"))
+            finally:
+                drv.close()
+    ctx.coverage["dynamic_anchor_probe"] = stats
+
+
 def correspondence(ctx):
     th = ctx.tier == "thorough"
     WC.world_suite(ctx, "C11", tags={"pre", "nopre", "init", "reset"}, walks_per_spec=4 if th else 1, n_generated=24 if th else 6,
                    n_steps=200 if th else 80, perturb=0.0, resets=40, n_agents=(1, 3), shared_every=3)
+    dynamic_anchor_probe(ctx)
     ctx.assumptions += ASSUME + ["'a returned view is never modified later' is a heap-aliasing statement outside the value-semantic model: decided by deep snapshots of every GameState returned by register/step/reset (partial)"]
